@@ -158,6 +158,9 @@ class TlSchemas:
                 if type_ in ('bytes', 'string'):
                     if isinstance(value, dict) and '@type' in value:
                         value = self.serialize(schema=self.get_by_name(value['@type']), data=value, boxed=True)
+                    if isinstance(value, list):  # several objects in one field, the form the parser returns them in
+                        value = b''.join(bytes(v) if isinstance(v, (bytes, bytearray, memoryview)) else
+                                         self.serialize(schema=self.get_by_name(v['@type']), data=v, boxed=True) for v in value)
                     if isinstance(value, bytes):
                         temp = b''
                         bytes_len = len(value)
